@@ -97,3 +97,12 @@ pub fn devf(got: f64, e: f64) -> f64 {
 pub fn bits_eq<T: Sc>(a: &[T], b: &[T]) -> bool {
     a.len() == b.len() && a.iter().zip(b.iter()).all(|(x, y)| x.bits() == y.bits())
 }
+
+/// maximum that does not swallow NaN (f64::max ignores a NaN operand: a NaN result must fail a comparison)
+pub fn nmax(a: f64, b: f64) -> f64 {
+    if b.is_nan() || a.is_nan() {
+        f64::INFINITY
+    } else {
+        a.max(b)
+    }
+}
